@@ -458,6 +458,8 @@ class FaultWorld:
         self.job_target: dict[str, Entity] = {}
         self.job_times: dict[str, dict] = {}   # name -> {m: t_ns}
         drain_ns = 0
+        # boundary-aligned extra jobs (one per window edge of the node) also have to be served before the run ends
+        extra_jobs = 2 * len(sc["faults"]) + 2
         for i, n in enumerate(sc["nodes"]):
             kind = n["kind"]
             for side in ("t", "b"):
@@ -498,17 +500,17 @@ class FaultWorld:
                     self.jobs.append((t, self.job_target.get(name, e), m))
                     self.job_times[name][m] = t
                 if kind == "qworker":
-                    drain_ns = max(drain_ns, (len(times) + 8) * n["service_us"] * 1000)
+                    drain_ns = max(drain_ns, (len(times) + extra_jobs) * n["service_us"] * 1000)
                 if kind == "holder":
                     co = extra[1]
                     self.job_times[co.name] = {}
                     for m, t in enumerate(self._job_times(n["co_period_us"], n.get("co_phase_us", 0), n.get("skip", []))):
                         self.jobs.append((t + 11, co, m))
                         self.job_times[co.name][m] = t + 11
-                    drain_ns = max(drain_ns, (len(times) + len(self.job_times[co.name]))
+                    drain_ns = max(drain_ns, (len(times) + extra_jobs + len(self.job_times[co.name]))
                                    * max(n["hold_us"], n["co_hold_us"]) * 1000)
                 elif kind == "server":
-                    drain_ns = max(drain_ns, len(times) * n["service_us"] * 1000)
+                    drain_ns = max(drain_ns, (len(times) + extra_jobs) * n["service_us"] * 1000)
                 elif kind == "gen":
                     drain_ns = max(drain_ns, sum(int(s[0]) for s in n["steps"]) * 1000)
         # network + twin network
